@@ -141,3 +141,13 @@ def run(ctx):
         "4-symbol alphabet {d, quote, LF, a} in the thorough tier)",
         "CLI replay is sampled (TLC simulation), not exhaustive",
     ]
+
+# MUTANTS (scratch worktree, VERIF_REPO=..., quick tier, model stage skipped; all exit 1 at trace event 1):
+#  M11 eval.rs quote_csv_field: inner quote not doubled                      -> caught
+#  M12 jq_runner.rs strip_quotes_and_decode: no un-doubling                  -> caught
+#  M13 eval.rs format_dsv joins with "," instead of the delimiter            -> caught
+#  M14 jq_runner.rs streaming DSV path ignores --input-dsv's delimiter       -> caught
+#  M15 jq_runner.rs strip_quotes_and_decode: `len() >= 2` -> `> 2` (`""` stays quoted) -> caught
+#  spec-level sanity: DsvFormat!Doubled without doubling -> MC_DsvFormat Inv violated at the string <<34>>.
+# F1 (C21) does not reach this round trip: a formatted line always ends `"` LF, never with a bare delimiter;
+# arrays whose last string is empty are generated on purpose (coverage.arrays_with.last_empty) and read back.
